@@ -53,6 +53,14 @@ Definition bodyless (m : meth) (status : Z) : bool := is_head m || (status =? 20
 (* the statement speaks about final statuses 200..999 *)
 Definition status_in_scope (status : Z) : bool := (200 <=? status) && (status <=? 999).
 
+(* ---------- header fields ---------- *)
+(* the field names the library manages itself (framing, connection handling, the single-valued slots of the Response):
+   a server is specified to add or own these; every other name is a user header field *)
+Definition special_names : list string :=
+  ["server"; "date"; "content-type"; "content-encoding"; "content-length"; "transfer-encoding"; "trailer"; "set-cookie"; "connection"]%string.
+Definition is_user (k : bytes) : bool := negb (existsb (fun n => name_is n k) special_names).
+Definition user_of (fs : list (bytes * bytes)) : list (bytes * bytes) := filter (fun e => is_user (fst e)) fs.
+
 (* ---------- head only (for the "at most the declared size" clause) ---------- *)
 Definition head_parse (s : bytes) : option (Z * list field * bytes) :=
   match take_line s with
